@@ -2,6 +2,7 @@
 from __future__ import annotations
 
 import ast
+import re
 
 from .. import anchors as A
 from ..model import AnalysisError, FuncInfo, Project, bind_args, call_name, kwarg, walk_local
@@ -294,3 +295,31 @@ def check(P: Project, R: Report) -> None:
             R.ob("R4", f"{f.qual}: result derives from the response", "send_message(" in ret, where, f"returns `{ret[:80]}`")
     R.need(n_helpers >= 12, f"only {n_helpers} typed helpers found (15 call sites confirmed by hand)")
     R.extra["typed_helpers"] = n_helpers
+
+    # ------------------------------------------------------------------ R6: an error answer is never the result
+    R.rule("R6", "the payload of the matched response: the routine the wait hands the matched message to returns a value only on a path that established that the message carries no `error` member (`… is None`, not mere falsiness — an empty error object is still an error answer); with an error member it raises")
+    procs = []
+    for r_ in walk_local(W.wait.node):
+        if isinstance(r_, ast.Return) and isinstance(r_.value, ast.Call):
+            g_ = P.resolve_call(W.wait, r_.value)
+            if isinstance(g_, FuncInfo) and g_ not in procs:
+                procs.append(g_)
+    if not procs:
+        procs = [W.wait]
+    n6 = 0
+    for g_ in procs:
+        if not any(isinstance(c_, ast.Constant) and c_.value == "error" for c_ in ast.walk(g_.node)) and not any(isinstance(a_, ast.Attribute) and a_.attr == "error" for a_ in ast.walk(g_.node)):
+            continue
+        R.fn(g_.fq)
+        ga_, go_ = run_paths(g_.node, fallible=False)
+        for st_, node_ in go_.ret:
+            if g_ is W.wait and not any(W.msg_term_prefix in l_ for l_ in st_.lits):
+                continue
+            origins = [ga_.origin(l_).replace("<", "").replace(">", "") for l_ in st_.lits]
+            absent = any(re.fullmatch(r"(getattr\(\w+, 'error', None\)|\w+\.error|\w+\.get\('error'(, None)?\)) is None", o_) for o_ in origins) or any(re.fullmatch(r"(not hasattr\(\w+, 'error'\)|'error' not in \w+)", o_) for o_ in origins)
+            n6 += 1
+            falsy = [o_ for o_ in origins if re.fullmatch(r"not (getattr\(\w+, 'error', None\)|\w+\.error|\w+\.get\('error'(, None)?\))", o_)]
+            R.ob("R6", f"{g_.qual}: a value is returned only when the message has no error member", absent, f"{g_.module.rel}:{node_.lineno}",
+                 (f"the returning path only established `{falsy[0]}`: an error response whose error object is empty (`\"error\": {{}}`, which the parser accepts) falls through and the call *returns* — the envelope, or None — instead of raising" if falsy else f"the returning path never tested the error member (literals {sorted(o_[:50] for o_ in origins)[:4]})"),
+                 sample=f"R6 {g_.qual}: returns under `error is None`")
+    R.need(n6 >= 1, "anchor: no routine that turns the matched response into the call's result was found")
